@@ -190,17 +190,18 @@ ADD5 = {
     "C01": ("; every consumer of a sensor's time-bias queue applies the bias of a queued event under no condition that a retained event can fail, on all weak orderings of (start, end, now) against the retention predicate (R14)", "; accessor analysis of queue consumers"),
     "C03": ("; the time of flight reaches the universal-variable iteration without being re-bound to anything but a reduction by the orbital period (R3)", ""),
     "C04": ("; no conversion of physics.transforms / maths / measurements / orbits modifies the array it is given, directly, through a view or alias, or through a resolved callee (R16)", "; parameter-mutation summaries (rsa/inplace.py)"),
-    "C06": ("; no method of the unscented filter picks an array axis or orientation by comparing lengths (R9)", "; forbidden-idiom scan with embedded positive examples"),
+    "C06": ("; no method of the unscented filter picks an array axis or orientation by comparing lengths (R9); the filter factories hand every estimate an object created by that call (R10)", "; forbidden-idiom scan with embedded positive examples; freshness provenance (rsa/fresh.py)"),
     "C07": ("; the id -> row / column maps are the enumeration of the id lists after every add / remove (R6)", ""),
     "C08": ("; the engine keeps every record a task-execution job hands back, in both buffers (R9)", ""),
     "C09": ("; every create_engine / sessionmaker / Session / execution_options call of resonaate.data carries transaction-neutral options only, so that commit / rollback of the session scope are real (R12)", "; frozen option table of the SQLAlchemy / pysqlite transaction switches"),
-    "C10": ("; no agent, dynamics or event class shares a mutable class-level default that a method modifies in place (R10); validators write a setting neither from nor under a test of another setting (R9, flow and control dependence)", ""),
+    "C10": ("; no agent, dynamics or event class shares a mutable class-level default that a method modifies in place (R10); validators write a setting neither from nor under a test of another setting (R9, flow and control dependence); dynamicsFactory hands every agent a dynamics object created by that call (R11)", "; freshness provenance (rsa/fresh.py)"),
     "C11": ("; the inertial state of a configured site is computed from its latitude / longitude / altitude fields on every call - no private cache that copies carry along (R12)", ""),
     "C12": ("; a special-case form of the perifocal rotation selected by isInclined agrees with R3(-raan) R1(-inc) R3(-argp) at both ends of the inclination domain read off isInclined (R9)", "; rotation-chain algebra with degenerate R1 factors"),
     "C13": ("; perturbation switches are what the user wrote (R10, shared with C10.R9)", ""),
     "C14": ("; FieldOfView.fromConfig hands each constructor parameter the configuration field of the same name (R13)", ""),
     "C16": ("; between the Observation record and the filter an angle is only re-represented by period-preserving maps (R6); an observation list re-bound to a keyed / stateful selection made while iterating over it is reported as order-dependent (R5)", ""),
     "C17": ("; checkManeuverDetection calls the detector unconditionally and raises the flag iff it fired (R4); every filter gets a detector created by its own factory call - never one kept in a module-level / class-level container or behind a memoising decorator (R5)", "; freshness provenance (rsa/fresh.py)"),
+    "C18": ("; adaptiveEstimationFactory hands every estimate a multiple-model filter created by that call (R7)", "; freshness provenance (rsa/fresh.py)"),
     "C19": ("; every database interface creates its engine in its own construction, through helper overrides of every subclass, for the URL it was given (R6)", "; freshness provenance (rsa/fresh.py)"),
     "C20": ("; the second Lambert position of the IOD is the inversion of one radar observation of the step or a mean over exactly the inverted ones (R3)", ""),
 }
